@@ -194,6 +194,12 @@ def eval_call(it, node, env):
                 # the contract gives the external callee as a function of its (evaluated) arguments, built from ghost values
                 it.assumptions_log.add("external call %s(...): replaced by the contract's ghost function (assumed contract on a dependency)" % key)
                 args, kwargs = eval_args(it, node, env)
+                it.stub_receiver = None
+                if isinstance(f, ast.Attribute):
+                    try:
+                        it.stub_receiver = it.eval(f.value, env)  # the object the stubbed method is called on (for ghosts that depend on it)
+                    except (Unsupported, _Raise):
+                        pass
                 return cs[key](it, *args, **kwargs)
             it.assumptions_log.add("external call %s(...): result havocked (the contract's ghost value %s; nothing is assumed about it)" % (key, cs[key]))
             return it.ghost_env[cs[key]]
@@ -726,6 +732,8 @@ def b_sorted(it, x, key=None, reverse=False):
 
 
 def b_hasattr(it, o, name):
+    if isinstance(o, PyObjV):
+        return name in b_dir(it, o)
     if isinstance(o, ObjV):
         try:
             it.field_kind(o.classes, name)
@@ -910,9 +918,13 @@ def np_sum(it, a, axis=None, keepdims=False):
         rd = it.arr2_reader(a)
         nr, nc = it.arr2_dims(a)
         if axis == 0:
-            return LArr(nc, lambda j: _range_sum(it, lambda i: rd(i, j), nr))
+            col = lambda j: _range_sum(it, lambda i: rd(i, j), nr)
+            return LArr2(1, nc, lambda i, j: col(j)) if keepdims else LArr(nc, col)
         if axis == 1:
-            return LArr(nr, lambda i: _range_sum(it, lambda j: rd(i, j), nc))
+            row = lambda i: _range_sum(it, lambda j: rd(i, j), nc)
+            return LArr2(nr, 1, lambda i, j: row(i)) if keepdims else LArr(nr, row)
+        if keepdims:
+            raise Unsupported("np.sum(keepdims) without an axis")
         if axis is None:
             # the sum of all cells: the sum over the rows of the row sums
             return _range_sum(it, lambda i: _range_sum(it, lambda j: rd(i, j), nc), nr)
@@ -992,6 +1004,15 @@ def np_clip(it, a, lo, hi):
         hi = None
     r = a if lo is None else np_maximum(it, a, lo)
     return r if hi is None else np_minimum(it, r, hi)
+
+
+def np_where(it, cond):
+    """np.where(mask) -- one argument, concrete mask only: the tuple of index arrays"""
+    if isinstance(cond, np.ndarray) and cond.dtype == bool:
+        return tuple(list(int(i) for i in ix) for ix in np.where(cond))
+    if isinstance(cond, list) and all(isinstance(c, bool) for c in cond):
+        return ([i for i, c in enumerate(cond) if c],)
+    raise Unsupported("np.where on a symbolic mask")
 
 
 def np_all(it, a, axis=None):
@@ -1273,7 +1294,7 @@ def np_linspace(it, a, b, num=50):
 
 NP = {
     "zeros": np_zeros, "ones": np_ones, "empty": np_empty, "full": np_full, "zeros_like": np_zeros_like, "ones_like": np_ones_like, "array": np_array,
-    "sum": np_sum, "divide": np_divide, "minimum": np_minimum, "maximum": np_maximum, "clip": np_clip, "all": np_all, "any": np_any, "cumsum": np_cumsum,
+    "sum": np_sum, "divide": np_divide, "minimum": np_minimum, "maximum": np_maximum, "clip": np_clip, "where": np_where, "all": np_all, "any": np_any, "cumsum": np_cumsum,
     "prod": np_prod, "product": np_prod, "isfinite": np_isfinite, "isscalar": np_isscalar, "exp": np_exp, "argsort": np_argsort, "argmax": np_argmax, "isnan": np_isnan, "interp": np_interp, "matmul": np_matmul, "sqrt": np_sqrt, "isclose": np_isclose,
     "less": np_less, "round": np_round, "linspace": np_linspace, "abs": lambda it, x: b_abs(it, x), "ceil": lambda it, x: to_real(b_ceil(it, x)) if is_z3(x) else float(math.ceil(x)),
 }
